@@ -125,6 +125,7 @@ static bool       g_yield_on_event = false;
 static Rng        g_sched_rng(1);
 static size_t     g_stack_hwm = 0;
 static uint64_t   g_alarm_last_steps = ~0ULL;
+static uint64_t   g_bad_accesses = 0;
 static bool       g_sync_released = false; // a simulated lock / guard was released since the scheduler last looked
 
 static uint64_t    g_run_index = 0, g_run_seed = 0;
@@ -188,12 +189,44 @@ void obs(uint64_t x) {
 // ---------------------------------------------------------------------------------------------
 // violations
 // ---------------------------------------------------------------------------------------------
+// optimiser twins have no shadow stack (nothing is instrumented): walk the frame pointers of the fiber instead
+// (their worlds and this runtime are compiled with -fno-omit-frame-pointer; inlined functions do not appear)
+static std::string stack_names_fp(int maxn) {
+    std::string s;
+    if (g_cur->as_thread || g_cur->stack_lo == nullptr) return s;
+    uintptr_t  lo = (uintptr_t)g_cur->stack_lo, hi = (uintptr_t)g_cur->stack_hi;
+    uintptr_t *fp = (uintptr_t *)__builtin_frame_address(0);
+    int         n = 0;
+    std::string last;
+    for (int depth = 0; depth < 48 && n < maxn; depth++) {
+        if ((uintptr_t)fp < lo || (uintptr_t)fp + 16 > hi || ((uintptr_t)fp & 7) != 0) break;
+        uintptr_t  ret  = fp[1];
+        uintptr_t *next = (uintptr_t *)fp[0];
+        if (ret == 0) break;
+        const char *m = sym_mangled(ret);
+        // (a harness wrapper that is one library call compiled as its own unit stands for the inlined call)
+        if (mangled_is_lib(m) || (m != nullptr && strstr(m, "in_own_unit") != nullptr)) {
+            std::string nm = short_name(m);
+            if (nm != last) {
+                if (n) s += "<";
+                s += nm;
+                last = nm;
+                n++;
+            }
+        }
+        if (next <= fp) break;
+        fp = next;
+    }
+    return s;
+}
+
 static std::string stack_names(int maxn) {
     std::string s;
     if (g_cur == nullptr) return s;
+    if (g_cur->sdepth == 0) return stack_names_fp(maxn);
     int n = 0;
     std::string last;
-    for (int i = g_cur->sdepth - 1; i >= 0 && n < maxn; i--) {
+    for (int i = std::min(g_cur->sdepth, SSDEPTH) - 1; i >= 0 && n < maxn; i--) {
         const char *m = sym_mangled(g_cur->ss[i]);
         if (!mangled_is_lib(m)) continue;
         std::string nm = short_name(m);
@@ -264,7 +297,7 @@ static void capture_site(Block &b) {
     b.site[0] = b.site[1] = b.site[2] = 0;
     if (g_cur == nullptr) return;
     int n = 0;
-    for (int i = g_cur->sdepth - 1; i >= 0 && n < 3; i--) b.site[n++] = g_cur->ss[i];
+    for (int i = std::min(g_cur->sdepth, SSDEPTH) - 1; i >= 0 && n < 3; i--) b.site[n++] = g_cur->ss[i];
 }
 
 static void fill_fresh(uint8_t *p, size_t n, uint32_t serial) {
@@ -306,6 +339,13 @@ static void *arena_alloc(size_t size, BlockKind kind) {
     if (!reused) {
         size_t o = g_bump + RZ;
         if (size > (size_t(1) << 28)) {
+            // geometric growth of something that really is that large (a live block of at least a sixteenth of the
+            // request exists): a simulator resource limit, not a finding
+            for (auto &lb : g_blocks)
+                if (lb.state == 0 && lb.size >= size / 16) {
+                    g_probes["sim.arena-exhausted-run-abandoned"]++;
+                    abort_run();
+                }
             // a request no caller could mean (garbage size after memory corruption): in a real process operator
             // new would throw and the -fno-exceptions library would terminate
             add_violation("alloc-huge", "", "allocation request of " + std::to_string(size) + " bytes", true);
@@ -572,7 +612,17 @@ static inline void step_and_maybe_yield(uintptr_t pc) {
     g_steps++;
     if (g_cur) g_cur->steps++;
     if (g_steps > g_cfg.step_budget) {
-        add_violation("hang", "step-budget", "run exceeded its step budget (no termination within bounded work); in " + stack_names(3), false);
+        if (g_cfg.soft_budget) {
+            {
+                RtGuard g;
+                g_probes["sim.step-budget-run-abandoned"]++;
+            }
+            abort_run();
+        }
+        {
+            RtGuard g; // (the text below is built by instrumented-callback-free runtime code only while the guard is held)
+            add_violation("hang", "step-budget", "run exceeded its step budget (no termination within bounded work); in " + stack_names(3), false);
+        }
         abort_run();
     }
     if (g_ntasks > 1) {
@@ -590,6 +640,11 @@ static const char *kind_name(uint8_t k) {
 static void classify_bad(uintptr_t addr, size_t size, bool w, uintptr_t pc) {
     RtGuard g;
     if (!pc_is_lib(pc)) return; // harness code inside a bracket
+    if (++g_bad_accesses > 4000) {
+        // the run is already condemned (its violations are recorded); a runaway copy would otherwise take minutes
+        g_in_rt = false;
+        abort_run();
+    }
     uintptr_t d = addr - (uintptr_t)A;
     if (d < ASZ) {
         uint32_t serial = G[d / GR];
@@ -750,6 +805,7 @@ void run_begin(const RunCfg &cfg) {
     g_memrec_add = g_memrec_remove = 0;
     g_steps = g_switches = 0;
     g_alarm_last_steps = ~0ULL;
+    g_bad_accesses     = 0;
     g_hash = 0xcbf29ce484222325ULL;
     g_il_hash = g_obs_hash = 0;
     g_viol.clear();
@@ -1159,7 +1215,7 @@ static void trap_handler(int signo, siginfo_t *si, void *uctx) {
 #endif
     if (g_cur) {
         int n = 0;
-        for (int i = g_cur->sdepth - 1; i >= 0 && n < 12; i--, n++) {
+        for (int i = (g_cur->sdepth < SSDEPTH ? g_cur->sdepth : SSDEPTH) - 1; i >= 0 && n < 12; i--, n++) {
             *p++ = ',';
             hexu(p, g_cur->ss[i]);
         }
